@@ -1,10 +1,12 @@
-import Tahoe.Immutable.UploadDecisionMatching
+import Tahoe.Immutable.UploadSelectionLemmas
 /-! C06 — a successful immutable upload meets servers-of-happiness (property theorems).
 
 Model: `Tahoe/Immutable/UploadDecision.lean` (selector's final test, `CHKUploader.set_shareholders`, the
 Encoder's push phase as a state machine over shareholder-loss events with `_remove_shareholder`, the close
 phase with `WriteBucketProxy.close()` = flush + remote close, answers arriving after the error, and
-`_encrypted_done`'s UploadResults).  Helper lemmas: `Tahoe/Immutable/UploadDecision{Rel,Lemmas,Matching}.lean`.
+`_encrypted_done`'s UploadResults) and `Tahoe/Immutable/UploadSelection.lean` (the bookkeeping of
+`Tahoe2ServerSelector.get_shareholders` over any history of answers, on C07/C08's `SelState`, composed with the
+above).  Helper lemmas: `Tahoe/Immutable/UploadDecision{Rel,Lemmas,Matching}.lean`, `UploadSelectionLemmas.lean`.
 `pre` = the pre-existing shares found (shnum ↦ servers), `alloc` = the buckets allocated (shnum ↦ server),
 `phases` = any failure script for the write phases (start, segments, hash trees, UEB), `closeEvs` = any
 order of close acknowledgements / remote-close failures / flush failures.  All universally quantified.
@@ -21,11 +23,11 @@ in C08 to be the maximum matching number), the same function the driver runs.
 | "reports success only if the shares it placed or found form a layout whose servers-of-happiness value is at least the configured threshold" | `success_layout_has_matching` (a matching of ≥ `happy` pairs exists among pre-existing shares ∪ the landlords that survived, each of which is closed and hole-free; no hypothesis beyond `pre` being a dict of sets), `success_is_happy` (same for any happiness function, on the encoder's final servermap) |
 | "every share it reports as placed is complete and readable on the server it names" | `reported_shares_on_named_server` (UploadResults.sharemap and .servermap name exactly the surviving landlords, each on the server that allocated it, close acknowledged, no write to it ever failed; pushed_shares = their number), `placed_shares_complete`; "readable" = the server made it visible on `close` — storage semantics is C22, checked here by the monitor (share bytes on disk = reference bytes) |
 | "If the threshold cannot be met (…failures during transfer), the upload fails with an unhappiness error" | `unhappy_iff_survivors_below_threshold` (error ⇔ no matching of `happy` pairs in pre-existing ∪ surviving landlords at the verdict; success ⇔ one exists), `loss_rechecks_whole_layout` (every loss event re-decides on the whole remaining layout, also when the lost share still has another holder), `unhappy_selection_fails`, `assertion_iff_duplicate_allocation` (the only other exit of the model; DESIGN 8.9, outside the statement) |
-| "(too few servers, full … servers)": whether the selector could have reached a happier layout | not covered here: the query rounds of `Tahoe2ServerSelector` are modelled only through their result (`pre`, `alloc`); optimality of the placement is C07; correspondence + monitor only |
+| "(too few servers, full or failing servers …)" | `too_few_servers_fails` (for every history of get_buckets / allocate_buckets answers over any number of rounds: fewer than `happy` servers ever reporting or granting a share ⇒ unhappiness error; full servers = empty grants, failing servers = error answers), `selection_hands_over` (what the selector's bookkeeping hands to the uploader for every history: all granted buckets, accumulated over the rounds; the get_buckets-reported shares only), `unhappy_selection_fails`. Whether a *better* placement was available to the selector (which shares it asks of which server, when it stops) is C07 — not covered here |
 | "leaves no partial shares visible to readers" | `failure_leaves_no_partial_share` (every bucket writer got `abort`; any share whose remote `close` was or may still be issued — hence the only ones a server can make visible — received every byte, for every order of answers including those after the error); that `abort` deletes an unfinished share and only `close` publishes is C22 |
 | "the shares it … found": the pre-existing shares counted are complete, readable shares | model input assumption, not a theorem: `pre` = shares reported by `get_buckets` / `alreadygot`, which a storage server gives for final (closed) shares only (C22 `visible_iff_closed`); so `success_layout_has_matching` is over complete shares. Tied by the monitor on concurrent uploads of one file (an upload stalled before close, a second one meanwhile, then timeout / disconnect / failure / completion of the first): every share found or placed must be complete in the server's final share directory when success is reported, the real layout's happiness ≥ threshold, the cap readable |
-| the success verdict is a function of the layout that is actually pushed | `success_needs_happy_pushed_allocation` (the allocation handed to `set_shareholders` itself passes the test and has one writer per share number), `assertion_iff_duplicate_allocation` (a tracker set with a doubly allocated share number is never pushed: the unchanged code asserts); the selector's rounds that produce the tracker set are not modelled — the monitor recomputes happiness of every reported success from the share files on disk (tight grids with a server failing `allocate_buckets`) |
-| quantifier: "failures injected on any allocate/write/close call, and every response ordering" | all theorems quantify over every `pre`, `alloc`, failure script, close-answer order and late-answer tail; allocate-time faults enter only through (`pre`, `alloc`) — monitor only |
+| the success verdict is a function of the layout that is actually pushed | `success_needs_happy_pushed_allocation`, `assertion_iff_duplicate_allocation`, and composed with the selector's rounds: `selection_hands_over` + `selected_success_layout_has_matching` (for every history of answers, failure script and answer order a success comes with `happy` pairwise-distinct (server, share) pairs, each reported by a get_buckets answer or granted by the named server, pushed, closed and hole-free) |
+| quantifier: "failures injected on any allocate/write/close call, and every response ordering" | all theorems quantify over every failure script, close-answer order and late-answer tail; allocate-time faults: `selected_allocations_never_leak` (every bucket any server granted in any round is aborted on the error and closed-or-aborted on success, whatever other allocate calls failed), `too_few_servers_fails`, `selected_success_layout_has_matching` quantify over every history of allocate answers and errors. The order in which the selector *issues* its queries (the placement plan per round) is C07's; response orderings of the push phase are the scripts |
 -/
 namespace Tahoe.C06
 open Tahoe.UploadDecision
@@ -254,6 +256,105 @@ example : (upload soh 6 [] [(0, 2), (1, 1), (2, 1), (2, 5), (3, 3), (3, 5), (4, 
     = .assertion := by decide +kernel
 example : (upload soh 6 [] [(0, 2), (1, 1), (2, 1), (3, 3), (4, 6), (5, 6)] [] []).outcome = .unhappy := by
   decide +kernel
+
+/-! ### Server selection composed with the upload decision
+`evs` is any history of answers to the selector's queries (get_buckets answers and errors, allocate_buckets
+answers — full, partial, empty — and errors), over any number of rounds, in any order. -/
+
+/-- **what selection hands to the uploader**, for every history: the allocation pushed is every bucket any
+server granted in any round (ServerTracker.buckets accumulate), the pre-existing map is every share reported
+by a successful get_buckets answer — shares named only in an allocate_buckets `alreadygot` answer are not
+counted — and it is a well-formed dict of sets. -/
+theorem selection_hands_over (total : Nat) (evs : List SelEv) :
+    (∀ sh p, (sh, p) ∈ allocOf (select total evs) ↔
+      ∃ asked ag allocd, SelEv.allocated p asked ag allocd ∈ evs ∧ sh ∈ allocd) ∧
+    (∀ p x, (p, x) ∈ rel (preOf (select total evs).sel.existing) ↔
+      ∃ shares, SelEv.gotBuckets p shares ∈ evs ∧ x ∈ shares) ∧
+    WFmap (preOf (select total evs).sel.existing) :=
+  select_spec total evs
+
+/- non-vacuity: the C06-e history in small: server 1 grants share 0 in round one, server 2 fails, a second
+   round re-homes share 1 to server 1 and share 0 to server 3: share 0 has two writers. `alreadygot` (share 5)
+   is not counted. -/
+example : allocOf (select 3 [.gotBuckets 4 [2], .allocated 1 [0] [] [0], .allocErr 2 [1],
+      .allocated 1 [1] [5] [1], .allocated 3 [0] [] [0]]) = [(0, 1), (1, 1), (0, 3)] ∧
+    preOf (select 3 [.gotBuckets 4 [2], .allocated 1 [0] [] [0], .allocErr 2 [1],
+      .allocated 1 [1] [5] [1], .allocated 3 [0] [] [0]]).sel.existing = [(2, [4])] := by decide
+
+/-- **too few servers ⇒ unhappiness error**: whatever the servers answer and however many rounds are run, if
+fewer than `happy` servers ever reported or granted a share, the upload ends with UploadUnhappinessError
+(in particular when the others are full — empty grants — or fail their calls). -/
+theorem too_few_servers_fails (happy total : Nat) (evs : List SelEv) (phases : List (List Nat))
+    (closeEvs : List CloseEv) (servers : List Nat)
+    (hs : ∀ p, ((∃ shares, SelEv.gotBuckets p shares ∈ evs ∧ shares ≠ []) ∨
+               (∃ asked ag allocd, SelEv.allocated p asked ag allocd ∈ evs ∧ allocd ≠ [])) → p ∈ servers)
+    (hlt : servers.length < happy) :
+    (selectThenUpload soh happy total evs phases closeEvs).outcome = .unhappy := by
+  obtain ⟨h1, h2, _⟩ := select_spec total evs
+  apply unhappy_selection_fails
+  refine Nat.lt_of_le_of_lt (soh_le_servers _ servers ?_) hlt
+  intro p s hps
+  rcases (rel_mergeTrackers _ _ p s).mp hps with h | h
+  · obtain ⟨shares, he, hx⟩ := (h2 p s).mp h
+    exact hs p (Or.inl ⟨shares, he, by intro hh; rw [hh] at hx; simp at hx⟩)
+  · obtain ⟨a, b, c, he, hx⟩ := (h1 s p).mp h
+    exact hs p (Or.inr ⟨a, b, c, he, by intro hh; rw [hh] at hx; simp at hx⟩)
+
+/- non-vacuity: threshold 3, three servers answer but one is full (grants nothing) and one fails -/
+example : (selectThenUpload soh 3 3 [.allocated 1 [0] [] [0], .allocated 2 [1] [] [], .allocErr 3 [2],
+      .allocated 1 [1, 2] [] [1, 2]] [] []).outcome = .unhappy := by decide +kernel
+
+/-- **no granted bucket leaks**: for every history, every bucket writer any server granted in any round is
+aborted when the upload ends with the unhappiness error, and is closed (complete) or aborted when it
+succeeds.  (The third exit, the assertion of DESIGN 8.9, aborts nothing: `assertion_iff_duplicate_allocation`.) -/
+theorem selected_allocations_never_leak (hp : Sharemap → Nat) (happy total : Nat) (evs : List SelEv)
+    (phases : List (List Nat)) (closeEvs : List CloseEv) (p : Nat) (asked ag allocd : List Nat) (sh : Nat)
+    (hev : SelEv.allocated p asked ag allocd ∈ evs) (hsh : sh ∈ allocd) :
+    let r := selectThenUpload hp happy total evs phases closeEvs
+    (r.outcome = .unhappy → sh ∈ r.final.aborted) ∧
+    (∀ placed sm, r.outcome = .success placed sm → sh ∈ r.final.closed ∨ sh ∈ r.final.aborted) := by
+  intro r
+  have hal : sh ∈ shnums (allocOf (select total evs)) :=
+    List.mem_map.mpr ⟨(sh, p), ((select_spec total evs).1 sh p).mpr ⟨asked, ag, allocd, hev, hsh⟩, rfl⟩
+  constructor
+  · intro hu
+    exact (failure_leaves_no_partial_share hp happy _ _ phases closeEvs hu).1 sh hal
+  · intro placed sm hs
+    obtain ⟨hi, _, _, hpl, hcl, _, _⟩ := (upload_spec hp happy _ _ phases closeEvs).1 placed sm hs
+    rcases hi.st.core.accounted sh hal with h | h
+    · exact Or.inl (hcl sh (hpl ▸ h))
+    · exact Or.inr h
+
+example : (selectThenUpload (fun m => m.length) 2 3 [.allocated 1 [0] [] [0], .allocated 2 [1, 2] [] [1, 2]]
+    [[1]] []).final.aborted = [1] := by decide
+
+/-- **the composed success theorem**: for every history of answers, failure script and answer order, a
+reported success comes with `happy` (server, share) pairs, pairwise distinct in both coordinates, each of which
+is a share some server reported in a get_buckets answer, or a bucket some server granted whose writer
+survived the push, was closed and received every byte. -/
+theorem selected_success_layout_has_matching (happy total : Nat) (evs : List SelEv) (phases : List (List Nat))
+    (closeEvs : List CloseEv) (placed : List Nat) (sm : Sharemap)
+    (h : (selectThenUpload soh happy total evs phases closeEvs).outcome = .success placed sm) :
+    let r := selectThenUpload soh happy total evs phases closeEvs
+    ∃ M : List (Nat × Nat), happy ≤ M.length ∧ M.Pairwise (fun a b => a.1 ≠ b.1 ∧ a.2 ≠ b.2) ∧
+      ∀ e ∈ M, (∃ shares, SelEv.gotBuckets e.1 shares ∈ evs ∧ e.2 ∈ shares) ∨
+        (∃ asked ag allocd, SelEv.allocated e.1 asked ag allocd ∈ evs ∧ e.2 ∈ allocd ∧
+          e.2 ∈ r.final.closed ∧ e.2 ∉ r.final.holes) := by
+  intro r
+  obtain ⟨h1, h2, hw⟩ := select_spec total evs
+  obtain ⟨⟨M, hM, hlen⟩, _, hpl⟩ := success_layout_has_matching happy _ _ phases closeEvs placed sm hw h
+  obtain ⟨hi, _, _, _, _, _, _⟩ := (upload_spec soh happy _ _ phases closeEvs).1 placed sm h
+  refine ⟨M, hlen, hM.2, ?_⟩
+  rintro ⟨p, s⟩ he
+  rcases (mem_layoutPairs _ _ p s).mp (hM.1 _ he) with hpre | hland
+  · exact Or.inl ((h2 p s).mp hpre)
+  · obtain ⟨a, b, c, hev, hx⟩ := (h1 s p).mp (core_landlords_sub hi.st.core _ hland)
+    have hs : s ∈ placed := by rw [hpl]; exact List.mem_map.mpr ⟨(s, p), hland, rfl⟩
+    have hc := placed_shares_complete soh happy _ _ phases closeEvs placed sm h s hs
+    exact Or.inr ⟨a, b, c, hev, hx, hc.1, hc.2.2.1⟩
+
+example : (selectThenUpload soh 2 3 [.gotBuckets 4 [2], .allocated 1 [0] [] [0], .allocated 2 [1] [] [1]]
+    [[1]] []).outcome = .success [0] [(2, [4]), (0, [1])] := by decide +kernel
 
 /-- the only exit that is neither success nor the unhappiness error: `CHKUploader.set_shareholders`
 asserts when a happy selection allocated one share number on two servers (DESIGN 8.9; the statement is
